@@ -282,6 +282,19 @@ func runC07() *RunResult {
 				}
 				t.ops = append(t.ops, o)
 			}
+			if k.p.UsesFuncs != 0 && chance(10) {
+				// a user function panics in the middle of a traversal and the caller recovers;
+				// the evaluation hit is not judged, the ones after it are
+				pn := drawPanicsAlways(k.p.UsesFuncs)
+				d := deepCopy(k.doc)
+				o := &Op{Kind: opCustom, Path: k.p, Panics: pn}
+				o.Do = func(t *Task, o *Op) {
+					simrt.SetMapPolicy(simrt.MapMixed)
+					_, o.Got = safeCall(k.fn.Fn, d)
+					o.Got = clip(o.Got, 80)
+				}
+				t.ops = append(t.ops, o)
+			}
 			pol := 1 + rn(4) // never plain ascending: desc, rotate, random, mixed
 			var d interface{}
 			switch rn(3) {
